@@ -114,6 +114,33 @@ pub const CHAIN_ADAPTORS: &[(&str, bool)] = &[
     ("(7..8).chain({S})", true),
 ];
 
+/// The chain consumed by a `for` loop whose body is `mark(77)` (consumer index `CHAIN_FOR`):
+/// per adaptor, what happens in order — A = the source evaluates f(a), B = f(a + 1), M = one
+/// iteration of the loop body. An error at A or B ends the sequence: nothing is delivered to
+/// the loop after the source has failed.
+pub const CHAIN_FOR_SCRIPTS: &[&str] = &[
+    "AMBM",  // {S}
+    "AMBMM", // chain((0,))
+    "AMBM",  // enumerate
+    "AMBMM", // intersperse(0): the separator only once the next value is there
+    "AMBM",  // skip(0)
+    "AMBM",  // step(1)
+    "AMBM",  // take(2)
+    "AMBM",  // zip(10..12)
+    "AMBM",  // chunks(1)
+    "AMBM",  // windows(1)
+    "AMBM",  // peekable
+    "AMBM",  // keep
+    "AMBM",  // each
+    "AMBM",  // cycle().take(2)
+    "ABM",   // skip(1)
+    "ABM",   // step(2): the elements to skip are pulled right after the one that is kept
+    "AMBM",  // (10..12).zip({S})
+    "AMBM",  // (0..0).chain({S})
+    "MAMBM", // (7..8).chain({S})
+];
+pub const CHAIN_FOR: u8 = 200;
+
 /// consumers that pull everything
 pub const CHAIN_CONSUMERS: &[(&str, bool)] = &[
     // (suffix, needs numeric elements)
@@ -240,7 +267,7 @@ pub const NATIVE_OP_FAILS: &[(&str, &str, u8)] = &[
 
 /// module files the engines place next to the script
 pub const MODULE_FILES: &[(&str, &str)] = &[
-    ("okmod.koto", "export x = 1\n"),
+    ("okmod.koto", "mark(4242)\nexport x = 1\n"),
     ("failtop.koto", "export y = 2\nthrow 'FT'\n"),
 ];
 
@@ -265,6 +292,36 @@ pub const TINY: &[(&[&str], &str, i64, &str)] = &[
     (&["try", "  s = size '{a + b}'", "catch _", "  s = -1", "s"], "10, 2", 2, "1, 'a'"),
 ];
 
+/// Helper functions that always fail, with known positions: (lines of the helper, offsets —
+/// from the helper's first line — of the frames INSIDE the helper, innermost first, the call,
+/// the first line of the error, it is a thrown string rather than a runtime error)
+pub const PRELUDE_FAILS: &[(&[&str], &[u32], &str, &str, bool)] = &[
+    // the implicit return value fails the output type check: reported at the last expression
+    (&["export RT0 = |a| -> Number", "  x = a", "  y = x", "  '{y}'"], &[3], "RT0(1)", "expected Number, found String", false),
+    (&["export RT1 = |a| -> String", "  x = a", "  return x"], &[2], "RT1(1)", "expected String, found Number", false),
+    // direct recursion: the same call site in consecutive frames
+    (&["export REC = |n|", "  if n == 0", "    throw 'rec'", "  REC(n - 1)"], &[2, 3, 3, 3], "REC(3)", "rec", true),
+    // argument and `let` type checks
+    (&["export AT0 = |a: String|", "  x = 1", "  a"], &[0], "AT0(1)", "expected String, found Number", false),
+    (&["export LT0 = |a|", "  x = 1", "  let y: String = a", "  y"], &[2], "LT0(1)", "expected String, found Number", false),
+];
+
+/// One-argument functions whose LAST expression contains a bare `return` that is not always
+/// reached: control can fall off the end of the function. Called as `xx = FALL<k>(true|false)`;
+/// the result (null either way) is not used.
+pub const FALL: &[&[&str]] = &[
+    &["if c then return"],
+    &["if c", "  return"],
+    &["x = 1", "if c then return"],
+    &["for i in 0..2", "  if c then return"],
+    &["while c", "  return"],
+    &["loop", "  if c then return", "  break"],
+    &["try", "  if c then return", "catch _", "  return"],
+    &["if c", "  return", "else if c == 5", "  return"],
+    &["match c", "  true then return", "  else null"],
+    &["if not c", "  if c then return"],
+];
+
 /// statements that always fail, for `Stmt::Storm`
 pub const STORM_SOURCES: &[&str] = &[
     "throw 'S'",
@@ -279,6 +336,41 @@ pub const STORM_SOURCES: &[&str] = &[
     "xx = (1..3).each(|x| x + 'a').to_list()",
     "xx = 1 + 'a'",
     "xx = IDX[5]",
+    "import failtop",
+    "from failtop import y",
+    "import nosuchmodule",
+    "xx = koto.run('throw 1')",
+    "xx = koto.load('(')",
+    "xx = IDX.nosuch()",
+    "assert false",
+    "xx = '{1 + null}'",
+    "xx = (1, 2, (3, 4 + 'a'))",
+    "xx = {k: 1 + 'a'}",
+    "xx = 'abc'.to_number() + 1",
+    "xx = (1..3).each(|x| x + 'a').to_tuple()",
+    "xx = (|a, b| a + b)(1)",
+    "xx = (1..3).fold 0, |a, b| a + 'x'",
+    "xx = -'a'",
+    "xx = 1 < 'a'",
+    "xx = 5[0]",
+    "xx, yy = 1 + 'a', 2",
+    "xx = if 1 + 'a' then 1 else 2",
+    // an overloaded operator that throws (STORMOBJ is defined in the prelude of every program)
+    "xx = STORMOBJ + 1",
+    "xx = STORMOBJ - 1",
+    "xx = STORMOBJ[0]",
+    "xx = STORMOBJ(1)",
+    "xx = -STORMOBJ",
+    "xx = STORMOBJ < 1",
+    "xx = STORMOBJ >= 1",
+    "xx = STORMOBJ == 1",
+    "xx = STORMOBJ != 1",
+    "xx = '{STORMOBJ}'",
+    "xx = size STORMOBJ",
+    "xx = [STORMOBJ] == [1]",
+    "xx = (STORMOBJ, STORMOBJ).min()",
+    "xx = STORMOBJ.to_list()",
+    "STORMOBJ += 1",
 ];
 
 #[derive(Clone, Debug)]
@@ -305,6 +397,15 @@ pub enum CatchKind {
     MapCodeTyped(u8),
     /// `catch {nokey}`: a map pattern nothing thrown by these programs matches
     MapMissing,
+    /// `catch i<v>: Bool`: the argument is named like a live local and its type never matches;
+    /// the local must keep its value (never in last position)
+    NeverLocal(u8),
+    /// `catch e: String?` (optional type hint): as `String`
+    StringOpt,
+    /// `catch e: T<k>?`
+    TypedOpt(u8),
+    /// `catch {code: Number}`: a typed entry of a map pattern; accepts the typed throws
+    MapCodeNum,
 }
 
 #[derive(Clone, Debug)]
@@ -374,8 +475,21 @@ pub enum Stmt {
     /// `try` / `import failtop` / `catch e` / `i<v> = 40` / `export EX<v> = i<v> + 1` /
     /// `i<v> = (|| EX<v> + 1)()`. The modules are files next to the script (`MODULE_FILES`).
     ImportStep(u8, bool),
+    /// a throw in the value position of an assignment to an existing local; form 0:
+    /// `i<v> = if <c> > 0 then <e> else throw 'E<n>'`, form 1: `i<v> = match <c>` / `  0 then
+    /// throw 'E<n>'` / `  else <e>`. When it throws the local keeps its value.
+    AssignOrThrow(u8, Expr, Expr, u32, u8),
+    /// `ls = [3, 'a', 1]` / `try` / `  ls.sort()` / `catch e` / `  i<v> = size ls`: a native that
+    /// fails half-way leaves the container's elements in place (possibly reordered)
+    SortFailKeeps(u8),
+    /// `GM[0] = (l0, 1)`: the bad-key assignment on the EXPORTED map (it keeps its entries)
+    GlobalMapBadKey,
     /// `i<v> = TINY<k>(<good or bad arguments>)`: see `TINY`
     Tiny(u8, u8, bool),
+    /// `xx = FALL<k>(true|false)`: see `FALL`
+    Fall(u8, bool),
+    /// `xx = <call of PRELUDE_FAILS[k]>`
+    PreludeFail(u8),
     /// `for rr in 0..<n>` / `try` / <a statement that always fails> / `catch e` / `i<v> += 1`:
     /// many errors caught in ONE frame (whatever a caught error leaves behind accumulates)
     Storm(u8, u8, u32),
@@ -413,7 +527,13 @@ pub struct Program {
     pub n_marks: u32,
     pub n_calls: u32,
     pub n_tries: u32,
+    /// the program is compiled with `enable_type_checks(false)` (the printer says so in a first
+    /// comment line, which `unwindsim::execute` honours): argument / `let` / output type hints
+    /// are then not checked, catch block type hints still select the handler
+    pub type_checks_off: bool,
 }
+
+pub const TYPE_CHECKS_OFF_HEADER: &str = "# compiled with type checks off";
 
 // ---------------------------------------------------------------------------------------------
 // Generation
@@ -441,6 +561,7 @@ pub struct GenKnobs {
     pub tick_shapes: Vec<TickShape>,
     /// largest iteration count of a `Stmt::Storm`
     pub max_storm: u32,
+    pub type_checks_off: bool,
 }
 
 impl GenKnobs {
@@ -483,6 +604,7 @@ impl GenKnobs {
             dense_exits: r.chance(1, 2),
             tick_shapes,
             max_storm: *r.pick(&[5, 30, 100, 270]),
+            type_checks_off: r.chance(1, 4),
         }
     }
 }
@@ -546,6 +668,9 @@ impl<'a> Gen<'a> {
             let mut co = self.r.usize_below(CHAIN_CONSUMERS.len());
             if CHAIN_CONSUMERS[co].1 && !CHAIN_ADAPTORS[ad].1 {
                 co = self.r.usize_below(10); // a consumer that accepts any element
+            }
+            if self.r.chance(1, 4) {
+                co = CHAIN_FOR as usize;
             }
             conduit = Conduit::Chain(ad as u8, co as u8);
         }
@@ -750,8 +875,25 @@ impl<'a> Gen<'a> {
                 }
                 27 if self.r.chance(1, 3) => {
                     if self.r.chance(1, 3) || !nested_ok || c.in_finally {
-                        match self.r.below(if self.cur == usize::MAX { 8 } else { 6 }) {
-                            6 | 7 => Stmt::ImportStep(self.r.below(3) as u8, self.r.chance(1, 3)),
+                        match self.r.below(if self.cur == usize::MAX { 11 } else { 9 }) {
+                            8 if self.k.allow_throw => Stmt::AssignOrThrow(
+                                self.r.below(3) as u8,
+                                self.small_int_expr(c),
+                                self.small_int_expr(c),
+                                self.r.range(1, 9) as u32,
+                                self.r.below(2) as u8,
+                            ),
+                            8 => Stmt::SortFailKeeps(self.r.below(3) as u8),
+                            7 if self.r.chance(1, 2) => Stmt::SortFailKeeps(self.r.below(3) as u8),
+                            7 => Stmt::GlobalMapBadKey,
+                            6 | 9 | 10 => Stmt::ImportStep(self.r.below(3) as u8, self.r.chance(1, 3)),
+                            // (with type checks off only the failer that does not rely on one)
+                            5 if self.r.chance(1, 2) => Stmt::PreludeFail(if self.p.type_checks_off {
+                                2
+                            } else {
+                                self.r.usize_below(PRELUDE_FAILS.len()) as u8
+                            }),
+                            4 if self.r.chance(1, 2) => Stmt::Fall(self.r.usize_below(FALL.len()) as u8, self.r.chance(1, 2)),
                             4 | 5 => Stmt::Tiny(
                                 self.r.below(3) as u8,
                                 self.r.usize_below(TINY.len()) as u8,
@@ -840,10 +982,14 @@ impl<'a> Gen<'a> {
                 CatchKind::String
             } else if self.r.chance(1, 5) {
                 CatchKind::Number
-            } else if self.r.chance(1, 4) {
-                match self.r.below(3) {
+            } else if self.r.chance(1, 3) {
+                match self.r.below(7) {
                     0 => CatchKind::MapCode,
                     1 => CatchKind::MapCodeTyped(self.r.range(1, 2) as u8),
+                    2 => CatchKind::NeverLocal(self.r.below(3) as u8),
+                    3 => CatchKind::StringOpt,
+                    4 => CatchKind::TypedOpt(self.r.range(1, 2) as u8),
+                    5 => CatchKind::MapCodeNum,
                     _ => CatchKind::MapMissing,
                 }
             } else {
@@ -915,7 +1061,10 @@ pub fn generate(r: &mut Rng, k: &GenKnobs) -> Program {
     let mut g = Gen {
         r,
         k,
-        p: Program::default(),
+        p: Program {
+            type_checks_off: k.type_checks_off,
+            ..Default::default()
+        },
         cur: 0,
         nfuncs,
         budget: 0,
@@ -975,6 +1124,8 @@ pub struct Printed {
     /// first line of each printed statement, by the statement's address in the printed
     /// `Program` (0 / absent = unknown, e.g. when the model runs on a clone)
     pub stmt_line: std::collections::HashMap<usize, u32>,
+    /// first line of each `PRELUDE_FAILS` helper
+    pub prelude_fail_line: Vec<u32>,
     pub lines: u32,
 }
 
@@ -1131,7 +1282,11 @@ impl Printer {
                     Conduit::OpIterator => format!("ITSUM{}()", c.func),
                     Conduit::Chain(ad, co) => {
                         self.chains.insert((ad, co));
-                        format!("C_CH{ad}_{co}({f}, {a})")
+                        if co == CHAIN_FOR {
+                            format!("C_CHFOR{ad}({f}, {a})")
+                        } else {
+                            format!("C_CH{ad}_{co}({f}, {a})")
+                        }
                     }
                     Conduit::Native2(i) => format!("{}({f}, {a})", NATIVE2[i as usize].0),
                 }
@@ -1295,9 +1450,14 @@ impl Printer {
                         CatchKind::MapCode => self.line(indent, "catch {code}"),
                         CatchKind::MapCodeTyped(k) => self.line(indent, &format!("catch {{code}}: T{k}")),
                         CatchKind::MapMissing => self.line(indent, "catch {nokey}"),
+                        CatchKind::NeverLocal(v) => self.line(indent, &format!("catch i{v}: Bool")),
+                        CatchKind::StringOpt => self.line(indent, "catch e: String?"),
+                        CatchKind::TypedOpt(k) => self.line(indent, &format!("catch e: T{k}?")),
+                        CatchKind::MapCodeNum => self.line(indent, "catch {code: Number}"),
                     }
                     match c.kind {
-                        CatchKind::MapCode | CatchKind::MapCodeTyped(_) => {
+                        CatchKind::NeverLocal(v) => self.line(indent + 1, &format!("caught({}, i{v})", t.id)),
+                        CatchKind::MapCode | CatchKind::MapCodeTyped(_) | CatchKind::MapCodeNum => {
                             self.line(indent + 1, &format!("caught({}, code)", t.id))
                         }
                         CatchKind::MapMissing => self.line(indent + 1, &format!("caught({}, nokey)", t.id)),
@@ -1312,15 +1472,18 @@ impl Printer {
                 if let (Some(_), Some(v)) = (&t.tuple_prefix, t.result) {
                     self.line(indent, &format!("i{v} = tq[1]"));
                 }
-                self.line(indent, &format!("dump({}, i0, i1, i2, s0, l0, m0, GL)", 1000 + t.id));
+                self.line(indent, &format!("dump({}, i0, i1, i2, s0, l0, m0, GL, GM)", 1000 + t.id));
             }
-            Stmt::Dump(n) => self.line(indent, &format!("dump({n}, i0, i1, i2, s0, l0, m0, GL)")),
+            Stmt::Dump(n) => self.line(indent, &format!("dump({n}, i0, i1, i2, s0, l0, m0, GL, GM)")),
             Stmt::MapIndexBadKey => self.line(indent, "m0[0] = (l0, 1)"),
             Stmt::NativeOpFail(k) => self.line(indent, &format!("xx = {}", NATIVE_OP_FAILS[*k as usize].0)),
             Stmt::ImportStep(v, ok) => {
                 if *ok {
-                    self.line(indent, "import okmod");
-                    self.line(indent, &format!("i{v} = okmod.x + 41"));
+                    // (a fresh alias every time: two imports of one name in one scope, the
+                    // first of which may not have run, are C18's business, not this engine's)
+                    let n = self.cur_line();
+                    self.line(indent, &format!("import okmod as om{n}"));
+                    self.line(indent, &format!("i{v} = om{n}.x + 41"));
                 } else {
                     self.line(indent, "try");
                     self.line(indent + 1, "import failtop");
@@ -1330,6 +1493,28 @@ impl Printer {
                     self.line(indent, &format!("i{v} = (|| EX{v} + 1)()"));
                 }
             }
+            Stmt::Fall(k, flag) => self.line(indent, &format!("xx = FALL{k}({flag})")),
+            Stmt::PreludeFail(k) => self.line(indent, &format!("xx = {}", PRELUDE_FAILS[*k as usize].2)),
+            Stmt::AssignOrThrow(v, cexp, e, n, form) => {
+                let cexp = self.expr(cexp);
+                if *form == 0 {
+                    let e = self.expr(e);
+                    self.line(indent, &format!("i{v} = if {cexp} > 0 then {e} else throw 'E{n}'"));
+                } else {
+                    self.line(indent, &format!("i{v} = match {cexp}"));
+                    self.line(indent + 1, &format!("0 then throw 'E{n}'"));
+                    let e = self.expr(e);
+                    self.line(indent + 1, &format!("else {e}"));
+                }
+            }
+            Stmt::SortFailKeeps(v) => {
+                self.line(indent, "ls = [3, 'a', 1]");
+                self.line(indent, "try");
+                self.line(indent + 1, "ls.sort()");
+                self.line(indent, "catch e");
+                self.line(indent + 1, &format!("i{v} = size ls"));
+            }
+            Stmt::GlobalMapBadKey => self.line(indent, "GM[0] = (l0, 1)"),
             Stmt::Tiny(v, k, bad) => {
                 let t = &TINY[*k as usize];
                 self.line(indent, &format!("i{v} = TINY{k}({})", if *bad { t.3 } else { t.1 }));
@@ -1351,7 +1536,7 @@ impl Printer {
                 self.line(indent + 2, &format!("caught({id}, e)"));
                 self.block(handler, indent + 2);
                 self.line(indent + 2, "break -7");
-                self.line(indent, &format!("dump({}, i0, i1, i2, s0, l0, m0, GL)", 1000 + id));
+                self.line(indent, &format!("dump({}, i0, i1, i2, s0, l0, m0, GL, GM)", 1000 + id));
             }
             Stmt::AddAssign(v, e) => {
                 let e = self.expr(e);
@@ -1395,7 +1580,9 @@ impl Printer {
                     self.call_line.resize(ix + 2, 0);
                 }
                 self.call_line[ix] = self.cur_line();
-                self.line(indent, &format!("i{v} = C_APPLY {a}, |x|"));
+                // (a type hint on the function literal's argument in half of the sites)
+                let hint = if site % 2 == 0 { ": Number" } else { "" };
+                self.line(indent, &format!("i{v} = C_APPLY {a}, |x{hint}|"));
                 self.line(indent + 1, "q1 = x");
                 self.line(indent + 1, "q2 = q1 + 0");
                 self.line(indent + 1, "q3 = q2");
@@ -1433,9 +1620,13 @@ pub fn print(p: &Program, opts: &PrintOpts) -> Printed {
         call_line: vec![0; p.n_calls as usize + 1],
         noise: opts.noise_seed.map(Rng::new),
     };
+    if p.type_checks_off {
+        pr.line(0, TYPE_CHECKS_OFF_HEADER);
+    }
     if opts.define_globals {
         pr.line(0, "export GL = []");
     }
+    pr.line(0, "export GM = {ga: 1, gb: 2}");
     pr.line(0, "export IDX = (0,)");
     // the argument of a conduit is evaluated exactly once: multi-use goes through a helper
     pr.line(0, "export GAYGEN = |a, b|");
@@ -1464,9 +1655,38 @@ pub fn print(p: &Program, opts: &PrintOpts) -> Printed {
     pr.line(0, "export C_RETAIN = |f, a| size [a, a + 1].retain(|x| f(x) > -100000)");
     pr.line(0, "export C_SORTKEY = |f, a| size [a, a + 1].sort(|x| f(x))");
     pr.line(0, "export C_MAPUPDATE = |f, a| {k: a}.update('k', |x| f(x))");
+    pr.line(0, "export STORMOBJ =");
+    for (key, body) in [
+        ("@+", "|other| throw 'so'"),
+        ("@-", "|other| throw 'so'"),
+        ("@+=", "|other| throw 'so'"),
+        ("@index", "|i| throw 'si'"),
+        ("@call", "|x| throw 'sc'"),
+        ("@negate", "|| throw 'sn'"),
+        ("@<", "|other| throw 'sl'"),
+        ("@==", "|other| throw 'se'"),
+        ("@display", "|| throw 'sd'"),
+        ("@size", "|| throw 'ss'"),
+        ("@iterator", "|| throw 'sit'"),
+    ] {
+        pr.line(1, &format!("{key}: {body}"));
+    }
     for (k, t) in TINY.iter().enumerate() {
         pr.line(0, &format!("export TINY{k} = |a, b|"));
         for l in t.0 {
+            pr.line(1, l);
+        }
+    }
+    let mut prelude_fail_line = vec![];
+    for pf in PRELUDE_FAILS {
+        prelude_fail_line.push(pr.cur_line());
+        for l in pf.0 {
+            pr.line(0, l);
+        }
+    }
+    for (k, body) in FALL.iter().enumerate() {
+        pr.line(0, &format!("export FALL{k} = |c|"));
+        for l in *body {
             pr.line(1, l);
         }
     }
@@ -1488,7 +1708,7 @@ pub fn print(p: &Program, opts: &PrintOpts) -> Printed {
         pr.line(0, &format!("export f{i} = |a|"));
         pr.locals(1);
         pr.block(&f.body, 1);
-        pr.line(1, &format!("dump({}, i0, i1, i2, s0, l0, m0, GL)", 2000 + i));
+        pr.line(1, &format!("dump({}, i0, i1, i2, s0, l0, m0, GL, GM)", 2000 + i));
         let e = pr.expr(f.ret.as_ref().unwrap());
         pr.line(1, &format!("return {e}"));
         // conduit helpers for this function
@@ -1593,13 +1813,23 @@ pub fn print(p: &Program, opts: &PrintOpts) -> Printed {
         pr.line(0, "@main = ||");
         pr.line(1, &format!("f{k}({a})"));
     }
-    pr.line(0, "dump(3000, i0, i1, i2, s0, l0, m0, GL)");
+    pr.line(0, "dump(3000, i0, i1, i2, s0, l0, m0, GL, GM)");
     let e = pr.expr(p.main.ret.as_ref().unwrap());
     pr.line(0, &e);
     // insert the helper definitions of the chains in use in front of main and shift the
     // recorded lines of main's sites accordingly
     let mut helpers = vec![];
     for (ad, co) in pr.chains.iter() {
+        if *co == CHAIN_FOR {
+            helpers.push(format!("export C_CHFOR{ad} = |f, a|"));
+            helpers.push(format!(
+                "  for v in {}",
+                CHAIN_ADAPTORS[*ad as usize].0.replace("{S}", "(a..=a + 1).each(|x| f(x))")
+            ));
+            helpers.push("    mark(77)".to_string());
+            helpers.push("  return 0".to_string());
+            continue;
+        }
         helpers.push(format!("export C_CH{ad}_{co} = |f, a|"));
         helpers.push(format!(
             "  ({}){}",
@@ -1637,6 +1867,7 @@ pub fn print(p: &Program, opts: &PrintOpts) -> Printed {
         tick_line: pr.tick_line,
         call_line: pr.call_line,
         stmt_line: pr.stmt_line,
+        prelude_fail_line,
         lines,
     }
 }
